@@ -81,6 +81,12 @@ def _estimate_system_molecular_weight(molecules, system_molweight):
             return False
         mol.mixture.system_mass = system_weight
 
+    relative_masses = [mol.mixture.relative_mass for mol in molecules]
+    if None not in relative_masses and abs(sum(relative_masses) - 100) > 1e-6:
+        raise RuntimeError(
+            f"System described with inconsistent fractions {relative_masses}, they do not add up to 100%."
+        )
+
     return True
 
 
